@@ -265,6 +265,77 @@ func g5Simultaneous() []BashCase {
 	return cases
 }
 
+// G6: loop state across calls. A function holding a loop of each kind is left in every way
+// (return from inside at the first / a middle iteration, return from a nested inner loop, break,
+// normal end) and then called again; and it is called from inside a caller's loop of each kind, so
+// that hidden per-loop state (first-iteration flags, counters, end labels) of callee and caller,
+// and of two activations of the same function, would meet.
+func g6LoopStateAcrossCalls() []BashCase {
+	type lk struct {
+		name string
+		mk   func(ctr string, limit Expr, body ...Stmt) []Stmt // statements forming a loop that counts ctr from 0 below limit
+	}
+	kinds := []lk{
+		{"three", func(ctr string, limit Expr, body ...Stmt) []Stmt {
+			return []Stmt{For{Kind: ForThree, Init: def(ctr, il(0)), Cond: cmp("<", vr(ctr), limit), Post: IncDec{ctr, true}, Body: body}}
+		}},
+		{"cond", func(ctr string, limit Expr, body ...Stmt) []Stmt {
+			// the increment comes first so that a continue in the body cannot skip it; ctr runs 0..limit-1 in the body
+			b := append([]Stmt{IncDec{ctr, true}}, body...)
+			return []Stmt{def(ctr, il(-1)), For{Kind: ForCond, Cond: cmp("<", bin("+", vr(ctr), il(1)), limit), Body: b}}
+		}},
+		{"ever", func(ctr string, limit Expr, body ...Stmt) []Stmt {
+			b := append([]Stmt{IncDec{ctr, true}, ifs(cmp(">=", vr(ctr), limit), Break{})}, body...)
+			return []Stmt{def(ctr, il(-1)), For{Kind: ForEver, Body: b}}
+		}},
+		{"three-no-init", func(ctr string, limit Expr, body ...Stmt) []Stmt {
+			return []Stmt{def(ctr, il(0)), For{Kind: ForThree, Cond: cmp("<", vr(ctr), limit), Post: OpAssign{ctr, "+", il(1)}, Body: body}}
+		}},
+	}
+	exits := []string{"return-first", "return-middle", "return-nested", "break-middle", "run-out"}
+	cases := []BashCase{}
+	for _, callee := range kinds {
+		for _, ex := range exits {
+			// scan(limit, stop): walks i over 0..limit-1 and leaves according to ex when i == stop
+			var body []Stmt
+			switch ex {
+			case "return-first", "return-middle":
+				body = []Stmt{ifs(cmp("==", vr("i"), vr("stop")), ret(bin("*", vr("i"), il(10)))), OpAssign{"acc", "+", vr("i")}}
+			case "return-nested":
+				inner := callee.mk("j", il(3), ifs(logic("&&", cmp("==", vr("i"), vr("stop")), cmp("==", vr("j"), il(1))), ret(bin("+", bin("*", vr("i"), il(10)), vr("j")))), OpAssign{"acc", "+", vr("j")})
+				body = inner
+			case "break-middle":
+				body = []Stmt{ifs(cmp("==", vr("i"), vr("stop")), Break{}), OpAssign{"acc", "+", vr("i")}}
+			case "run-out":
+				body = []Stmt{OpAssign{"acc", "+", vr("i")}}
+			}
+			fbody := []Stmt{def("acc", il(0))}
+			fbody = append(fbody, callee.mk("i", vr("limit"), body...)...)
+			fbody = append(fbody, ret(bin("-", il(0), vr("acc"))))
+			scan := fn("scan", []Param{{"limit", TInt}, {"stop", TInt}}, []Type{TInt}, fbody...)
+			stopFor := func(k int64) Expr {
+				if ex == "return-first" {
+					return il(0)
+				}
+				return il(k)
+			}
+			// sequence of calls at top level: early exit, full run, early exit again, empty loop
+			seq := []Stmt{scan, pr(call("scan", il(4), stopFor(2))), pr(call("scan", il(4), il(9))), pr(call("scan", il(5), stopFor(1))), pr(call("scan", il(0), il(0))), pr(call("scan", il(3), stopFor(2)))}
+			cases = append(cases, BashCase{Key: "G6/sequence/" + callee.name + "/" + ex, Prog: SingleFile(seq)})
+			// called from inside a caller loop of each kind (also from a function), the caller's counter is printed
+			for _, caller := range kinds {
+				loop := caller.mk("k", il(4), pr(sl("k"), vr("k"), call("scan", il(4), stopFor(1))), pr(sl("again"), call("scan", bin("+", vr("k"), il(1)), vr("k"))))
+				top := append([]Stmt{scan}, loop...)
+				top = append(top, pr(sl("end")))
+				cases = append(cases, BashCase{Key: "G6/in-caller-loop/" + caller.name + "/" + callee.name + "/" + ex, Prog: SingleFile(top)})
+				inFn := []Stmt{scan, fn("drive", nil, nil, append(append([]Stmt{}, loop...), pr(sl("driven")))...), callS("drive"), callS("drive"), pr(sl("end"))}
+				cases = append(cases, BashCase{Key: "G6/in-caller-function/" + caller.name + "/" + callee.name + "/" + ex, Prog: SingleFile(inFn)})
+			}
+		}
+	}
+	return cases
+}
+
 func c02Families(c *Check) []BashCase {
 	cases := []BashCase{}
 	cases = append(cases, g1NameReuse()...)
@@ -272,13 +343,14 @@ func c02Families(c *Check) []BashCase {
 	cases = append(cases, g3Arity()...)
 	cases = append(cases, g4ReturnRegisters()...)
 	cases = append(cases, g5Simultaneous()...)
+	cases = append(cases, g6LoopStateAcrossCalls()...)
 	return cases
 }
 
 func init() { register("C02", checkC02) }
 
 func checkC02(c *Check) {
-	c.Rule = "enumerated families (name-reuse matrix, global-write matrix, arity sweep, return-register hazards, simultaneous assignment) plus a seeded random sweep of programs with 1-5 functions over a tiny name pool; non-trivial = the reference run executed at least one call and printed at least one line; distinct = SHA-256 of the source text"
+	c.Rule = "enumerated families (name-reuse matrix, global-write matrix, arity sweep, return-register hazards, simultaneous assignment, loop state across calls: 4 callee loop kinds x 5 ways of leaving x 4 caller loop kinds) plus a seeded random sweep of programs with 1-5 functions over a tiny name pool; non-trivial = the reference run executed at least one call and printed at least one line; distinct = SHA-256 of the source text"
 	c.Assumptions = []string{"reference interpreter implements frames (scalars by value, slices by reference, globals in place)", "/bin/bash 5.2", "programs whose statement both reads a variable and calls a function writing it are discarded (unspecified in Go)"}
 	nontrivial := func(r Result) bool {
 		if len(r.Stdout) == 0 {
@@ -313,5 +385,5 @@ func checkC02(c *Check) {
 		oracleSelfCheck(c, cases, 300)
 	}
 	runProbes(c, bashProbeJudge)
-	runBashCases(c, cases)
+	runBashCases(c, withTight(cases, 4))
 }
